@@ -202,6 +202,8 @@ func (s *setupWorker) setup(ctx context.Context, m transport.Metadata) error {
 	}
 	L(ctx).Debug("session metadata created")
 	s.local.Create(session.ID(), session)
+	// the CONNECT deadline ends here: from now on the keep-alive of the session applies
+	session.ExtendDeadline()
 	worker := &connectionWorker{
 		decoder: decoder.New(),
 		manager: s.manager,
